@@ -477,12 +477,14 @@ Proof.
 Qed.
 
 (** everything the configuration holds is above the tail *)
+Lemma pick_P ph sh : (forall p, ph = Some p -> P p) -> P sh -> P (pick_head ph sh).
+Proof. intros H1 H2. unfold pick_head. destruct ph as [p|]; [destruct (_ <? _); [apply H1; reflexivity|exact H2]|exact H2]. Qed.
+
 Lemma local_head_P c : Inv c -> P (local_head c).
 Proof.
-  intros HI. apply (i_P c HI). unfold local_head, all_hdrs.
-  destruct (ranges_head (c_pend c)) as [p|] eqn:Ep.
-  - apply in_or_app. right. right. apply in_or_app. left. apply head_in_pending. exact Ep.
-  - apply in_or_app. right. left. reflexivity.
+  intros HI. unfold local_head. apply pick_P.
+  - intros p Ep. apply (i_P c HI). unfold all_hdrs. apply in_or_app. right. right. apply in_or_app. left. apply head_in_pending. exact Ep.
+  - apply (i_P c HI). unfold all_hdrs. apply in_or_app. right. left. reflexivity.
 Qed.
 
 Lemma vwork_P t x now b :
@@ -515,14 +517,13 @@ Proof.
     pose proof (consec_bounds x l Hc y Hy). lia.
   - destruct (nth_error (c_thr c) i) as [t|] eqn:En; [|destruct Hy].
     pose proof (proj1 (Forall_forall _ _) (i_thr c HI) t (nth_error_In _ _ En)) as Ht.
-    destruct t as [h now b|h now b|a|a|sbj a|mu res x st rest|r]; try destruct Hy.
-    + destruct (c_mu c); [destruct Hy|]. destruct (ranges_head (c_pend c)) as [p|] eqn:Ep; [|destruct Hy].
-      destruct b as [pr ok]. cbn [thr_wf] in Ht. destruct Ht as [Hx Hb].
-      apply (vwork_P p h now (Bif pr ok)); auto.
-      apply (i_P c HI). unfold all_hdrs. apply in_or_app. right. right. apply in_or_app. left. apply head_in_pending. exact Ep.
+    destruct t as [h now b|h now b ph|a|a ph|sbj a|mu res x st rest|r]; try destruct Hy.
     + destruct b as [pr ok]. cbn [thr_wf] in Ht. destruct Ht as [Hx Hb].
-      apply (vwork_P (c_cache c) h now (Bif pr ok)); auto.
-      apply (i_P c HI). unfold all_hdrs. apply in_or_app. right. left. reflexivity.
+      apply (vwork_P (pick_head ph (c_cache c)) h now (Bif pr ok)); auto.
+      apply pick_P.
+      * intros p ->. apply (i_P c HI). unfold all_hdrs. apply in_or_app. right. right. apply in_or_app. right. apply in_or_app. right.
+        apply (flat_nth i _ _ p En). left. reflexivity.
+      * apply (i_P c HI). unfold all_hdrs. apply in_or_app. right. left. reflexivity.
     + destruct a as [x|]; [|destruct Hy]. cbn [thr_wf] in Ht.
       destruct (N.leb_spec (h_height x) (h_height sbj)); [destruct Hy|]. destruct Hy as [<-|[]].
       assert (Hs : P sbj).
